@@ -96,8 +96,75 @@ let cmd_utf8 () =
     let (r, sz) = decode_rune (hex_decode (String.trim line)) in
     Printf.printf "%d %d\n" (int_of_z r) (int_of_nat sz))
 
+(* ---------------------------------------------------------------- parser *)
+let read_tables file =
+  let ic = open_in file in
+  let line () = words (input_line ic) in
+  let errt = (match line () with ["E"; e] -> int_of_string e | _ -> failwith "E") in
+  let np = (match line () with ["P"; n] -> int_of_string n | _ -> failwith "P") in
+  let prods = List.init np (fun _ -> match List.map int_of_string (line ()) with
+    | [nt; len; a] -> { p_nt = nat_of_int nt; p_len = nat_of_int len; p_act = (a = 1) }
+    | _ -> failwith "prow") in
+  let ns = (match line () with "S" :: n :: _ -> int_of_string n | _ -> failwith "S") in
+  let dec a = if a = 0 then None else if a = 1 then Some Accept
+    else if a land 1 = 0 then Some (Shift (nat_of_int ((a - 2) / 2))) else Some (Reduce (nat_of_int ((a - 3) / 2))) in
+  let states = List.init ns (fun _ ->
+    match List.map int_of_string (line ()) with
+    | rc :: na :: rest ->
+      let rec take k l = if k = 0 then ([], l) else match l with x :: t -> let (a, b) = take (k - 1) t in (x :: a, b) | [] -> failwith "row" in
+      let (acts, rest) = take na rest in
+      (match rest with
+       | ng :: rest -> let (gs, _) = take ng rest in
+         { s_actions = List.map dec acts; s_recover = (rc = 1); s_gotos = List.map z_of_int gs }
+       | [] -> failwith "row")
+    | _ -> failwith "row") in
+  close_in ic;
+  { t_states = states; t_prods = prods; t_err = nat_of_int errt }
+
+let rec show_attr a =
+  match a with
+  | ANil -> "nil"
+  | ATok t -> Printf.sprintf "t%d@%d" (int_of_nat t.ttype) (int_of_nat t.tid)
+  | ANode (p, kids) -> Printf.sprintf "(%d%s)" (int_of_nat p) (show_list kids)
+  | AErr (t, disc, exp) ->
+    let d = show_list disc in
+    let d = if String.length d > 0 then String.sub d 1 (String.length d - 1) else d in
+    Printf.sprintf "(err t%d@%d [%s] {%s})" (int_of_nat t.ttype) (int_of_nat t.tid) d
+      (String.concat "," (List.map (fun n -> string_of_int (int_of_nat n)) exp))
+and show_list l = String.concat "" (List.map (fun k -> " " ^ show_attr k) l)
+
+let cmd_parse file fuel =
+  let tb = read_tables file in
+  iter_lines (fun line ->
+    let parses = String.split_on_char ';' line in
+    let outs = List.map (fun spec ->
+      let fail = ref None and types = ref [] in
+      List.iter (fun w ->
+        if w.[0] = 'F' then fail := Some (nat_of_int (int_of_string (String.sub w 1 (String.length w - 1))))
+        else if w <> "NEW" then types := int_of_string w :: !types) (words spec);
+      let input = List.mapi (fun i t -> { ttype = nat_of_int t; tid = nat_of_int i }) (List.rev !types) in
+      let r = parse tb (sem_node !fail) input (nat_of_int fuel) in
+      let head = match r.r_out with
+        | POk a -> "OK " ^ show_attr a
+        | PErr e ->
+          Printf.sprintf "ERR %s t%d@%d {%s} top=%d"
+            (match e.e_action with None -> "-" | Some i -> Printf.sprintf "action-error-%d" (int_of_nat i))
+            (int_of_nat e.e_tok.ttype) (int_of_nat e.e_tok.tid)
+            (String.concat "," (List.map (fun n -> string_of_int (int_of_nat n)) e.e_expected))
+            (int_of_nat e.e_top)
+        | PPanic _ -> "PANIC"
+        | PFuel -> "FUEL" in
+      match r.r_out with
+      | PPanic _ -> "PANIC"
+      | _ ->
+        head ^ " LOG" ^ String.concat "" (List.map (fun (p, kids) ->
+          Printf.sprintf " [%d%s]" (int_of_nat p) (show_list kids)) r.r_log)
+        ^ Printf.sprintf " SCANS %d CTXBAD 0" (int_of_nat r.r_scans)) parses in
+    print_endline (String.concat " ; " outs))
+
 let () =
   match Array.to_list Sys.argv with
+  | _ :: "parse" :: file :: fuel :: _ -> cmd_parse file (int_of_string fuel)
   | _ :: "ranges" :: args -> cmd_ranges args
   | _ :: "lex" :: file :: _ -> cmd_lex file
   | _ :: "utf8" :: _ -> cmd_utf8 ()
